@@ -63,7 +63,8 @@ CLAIMS = {
         text="All paths of variable-value coercion: null rejected for non-null and accepted for nullable types before anything is parsed; scalars parsed once, enum values by name only; a non-list value becomes a one-item list, items coerced once in order; per input field: absent with default -> default under the python name, absent and required -> error, present -> coerced and stored under the python name, unknown fields rejected; only coercion errors raised; the literal route (_extract_input_object) applies the same per-field rules (17 obligations). Module frame: coercion modules keep no written module-level state. coerce_int proved for int / bool / float / None inputs: accepts exactly the integral values of [-2^31, 2^31-1], returns them unchanged, raises only "
              "ValueError. Bounded: coerce_value / value_from_ast / coerce_argument_values and the keyword arguments seen by resolvers agree with a "
              "reference transcription of the specification's input coercion over 9 named types x 7 wrapper shapes x value grids, on the variable "
-             "and the literal route; rejected inputs never reach a resolver; per-type argument defaults on abstract-type selections.",
+             "and the literal route; rejected inputs never reach a resolver (also an explicit null for a defaulted variable at a non-null list item / input field); the arguments of a custom "
+             "directive handed out by ResolveInfo.get_directive_arguments are coerced the same way; per-type argument defaults on abstract-type selections.",
         note="Trusted: vf/ref_coerce.py (specification transcription). Floats are modelled as class + real value. str inputs of coerce_int and all "
              "recursive coercion functions are bounded only. Cross-kind scalar leniency (true for Int, 1 for String) is outside the property."),
     "C13": dict(
@@ -97,10 +98,10 @@ CLAIMS = {
         note=BND + "Trusted: vf/ref_exec.py + vf/ref_coerce.py (specification transcriptions). The executor is outside the VC generator's subset."),
     "C08": dict(
         category="other", engine="tracecheck+rtc",
-        technique="map_value effect contract checked on all three runtime implementations, gather_futures' ordering, unwrap_future never waiting and complete_value failing the request for unrepresentable leaves (Engine P, all paths, coroutines / done-callbacks sequentialised) + run-time functional contract under every enumerated completion order of parked resolver tasks (stateless DFS over schedules), 5 configurations",
+        technique="map_value effect contract checked on all three runtime implementations, gather_futures' ordering, unwrap_future never waiting and complete_value failing the request for unrepresentable leaves (Engine P, all paths, coroutines / done-callbacks sequentialised) + run-time functional contract under every enumerated completion order of parked resolver tasks (stateless DFS over schedules), 6 configurations",
         text="BlockingRuntime.map_value, AsyncIORuntime.map_value and the thread pool's chain each satisfy the map_value effect contract on every path (then exactly once when the value arrives, else handler only for a matching failure, the target future settled exactly once); gather_futures keeps one slot per source value in source order and fails on the first failure (17 obligations). Bounded: BlockingExecutor, Executor on Blocking / AsyncIO / ThreadPool runtimes each satisfy the C04 contract for every completion order of "
              "the in-flight tasks (thread pool replaced by a parking executor incl. tasks that finish at submit time; asyncio resolvers gated by harness "
-             "futures); the asyncio runtime in its default mode (plain resolvers offloaded to real worker threads) gives the same outcome, data, errors and invocations; unexpected exceptions - also of the library's own non-resolver error classes - surface unchanged; nothing stays pending once all tasks ran.",
+             "futures); the asyncio runtime in its default mode (built without a loop argument, plain resolvers offloaded to real worker threads) and the thread-pool runtime on a real pool give the same outcome, data, errors and invocations; what the thread pool has in flight together the asyncio runtime has too; unexpected exceptions - also of the library's own non-resolver error classes - surface unchanged; nothing stays pending once all tasks ran.",
         note=BND + "Callbacks are atomic (one thread): pre-emptive thread interleavings inside done-callbacks and fair termination are outside this family's reach."),
     "C09": dict(
         category="other", engine="tracecheck+rtc",
@@ -114,7 +115,8 @@ CLAIMS = {
         technique="trace contracts over every syntactic path of the real functions (ghost event words, callees by effect contract; unbounded in the inputs) + run-time response-format contracts on enumerated request outcomes (every failure stage, every truncation point)",
         text="All paths: process_graphql_query builds a result without data before execution (syntax / validation failure) and with data = None for request errors raised by execute(); GraphQLResult.response adds errors / data / extensions exactly when present, in that order, errors through to_dict(). Bounded: strict JSON, error entries (message, 1-based line/column inside the document, path of keys/indices), extensions pass-through, data "
              "omitted for syntax / validation failures, data null + errors for request errors, one error per failed position, for executions with "
-             "failures everywhere, every prefix of request texts, invalid documents and variable errors.",
+             "failures everywhere, every prefix of request texts, invalid documents and variable errors; a field error is located at its field (also in column 1 of a later line); "
+             "response() lists every recorded error; graphql_blocking and the asynchronous graphql answer like process_graphql_query.",
         note=BND + "Known findings: misspelt 'columne' key and IndexError when rendering the len+1 position (both pinned by tests)."),
     "C14": dict(
         category="other", engine="ctorcheck+rtc",
@@ -177,3 +179,23 @@ CLAIMS = {
              "schemas x 6 option sets; every call of 2-3 call sequences equals the first call of a fresh process.",
         note=BND + "Trusted: vf/ref_sdl.describe; build_schema (C11)."),
 }
+
+# additions of seed rounds 7 and 8 (what the bounded parts also cover now)
+_ADDENDA = {
+    "C01": "parse(text) with default options accepts exactly the executable grammar.",
+    "C02": "The same tree with the same spans whether the text is submitted as str or UTF-8 bytes, with or without a leading byte order mark; every node refers back to the submitted text.",
+    "C04": "The library's own default resolver follows its documented lookup for mappings, objects and methods (also for field names that are dict / list / str methods); "
+           "an operation name selects among the operations and must name one, also on one-operation documents.",
+    "C05": "A validated document has a determined response shape (FieldsOnCorrectType / ScalarLeafs re-derived by the reference).",
+    "C06": "A second schema with partly overlapping interfaces, a union, list arguments and input fields with defaults.",
+    "C09": "Also for a schema whose mutation root is its query root.",
+    "C12": "A schema printed, edited in place and printed again gives the text of the edited schema.",
+    "C14": "The result of a clone-based operation shares no field, argument, input field, enum value, user type or directive object with its source.",
+    "C16": "A falsy (empty, sized) instrumentation member receives its hooks like any other.",
+    "C17": "Re-iterable sources, bare scalar and falsy events, an initial value that is no event.",
+    "C18": "DispatchingVisitor hands every node to the hooks of its own kind (documents covering 40+ node kinds).",
+    "C19": "The rule raises nothing when the variables are missing, null or of the wrong kind, wherever the steering directive stands.",
+    "C20": "min_severity is a filter on the unfiltered report; a type changing its kind is reported, never a crash.",
+}
+for _k, _t in _ADDENDA.items():
+    CLAIMS[_k]["text"] = CLAIMS[_k]["text"].rstrip() + " " + _t
